@@ -13,6 +13,8 @@ Recognised shapes (anything else aborts with exit status 1, "tie broken"):
   _populate_edge_centroids:   `_lonlat_rad_to_xyz(np.deg2rad(centroid_lon), np.deg2rad(centroid_lat))` -> true
                               exactly one call `_xyz_to_lonlat_deg(centroid_x, centroid_y, centroid_z,
                               normalize=False)` -> fx_*_norm = false ; normalize=True or no keyword -> true
+  _populate_face_centerpoints: exactly one call `_lonlat_rad_to_xyz(centerpoint_lon, centerpoint_lat)` -> fx_welzl_deg = false
+                              `_lonlat_rad_to_xyz(np.deg2rad(centerpoint_lon), np.deg2rad(centerpoint_lat))`  -> true
  uxarray/grid/grid.py
   Grid.node_lon and Grid.node_lat (both must agree): the body of `if "node_lon"/"node_lat" not in self._ds:` is
                               `_set_desired_longitude_range(self._ds); _populate_node_latlon(self)` -> fx_node_after = false
@@ -165,6 +167,18 @@ def check_flags(fn):
     return res["edge"], res["face"]
 
 
+def welzl_flag(fn):
+    cs = calls(fn, "_lonlat_rad_to_xyz")
+    if len(cs) != 1 or len(cs[0].args) != 2 or cs[0].keywords:
+        raise Unknown(fn.name + ": expected one call _lonlat_rad_to_xyz(a, b)")
+    a, b = cs[0].args
+    if is_name(a, "centerpoint_lon") and is_name(b, "centerpoint_lat"):
+        return False
+    if is_np_call(a, "deg2rad", "centerpoint_lon") and is_np_call(b, "deg2rad", "centerpoint_lat"):
+        return True
+    raise Unknown(fn.name + ": unrecognised arguments of _lonlat_rad_to_xyz")
+
+
 def main():
     repo, gen = sys.argv[1], sys.argv[2]
     try:
@@ -174,6 +188,7 @@ def main():
         fx_node = node_wrap(func(tree, "_populate_node_latlon"))
         fdeg, fnorm = centroid_flags(func(tree, "_populate_face_centroids"))
         edeg, enorm = centroid_flags(func(tree, "_populate_edge_centroids"))
+        wdeg = welzl_flag(func(tree, "_populate_face_centerpoints"))
         fx_after = node_after(open(os.path.join(repo, "uxarray", "grid", "grid.py")).read())
         vsrc = open(os.path.join(repo, "uxarray", "grid", "validation.py")).read()
         echeck, fcheck = check_flags(func(ast.parse(vsrc), "_check_normalization"))
@@ -181,13 +196,14 @@ def main():
         sys.stderr.write("c04_variant: tie broken: %s\n" % ex)
         return 1
     b = {True: "true", False: "false"}
-    flags = [fx_node, fx_after, fdeg, edeg, fnorm, enorm, echeck, fcheck]
+    flags = [fx_node, fx_after, fdeg, edeg, fnorm, enorm, echeck, fcheck, wdeg]
     txt = ("(* generated by harness/translators/c04_variant.py from uxarray/grid/coordinates.py,\n"
            "   uxarray/grid/grid.py and uxarray/grid/validation.py — do not edit *)\n"
            "From Verif Require Import Base C04.\n"
            "Definition c04_repo_fixes : c04_fixes :=\n"
            "  {| fx_node_wrap := %s; fx_node_after := %s; fx_face_deg := %s; fx_edge_deg := %s;\n"
-           "     fx_face_norm := %s; fx_edge_norm := %s; fx_edge_check := %s; fx_face_check := %s |}.\n"
+           "     fx_face_norm := %s; fx_edge_norm := %s; fx_edge_check := %s; fx_face_check := %s;\n"
+           "     fx_welzl_deg := %s |}.\n"
            % tuple(b[x] for x in flags))
     write_if_changed(os.path.join(gen, "C04_variant.v"), txt)
     print(" ".join("1" if x else "0" for x in flags))
